@@ -420,3 +420,58 @@ pub fn ast_nodes(text: &str, config: &Config) -> Option<Vec<(String, usize, usiz
         v.out
     })
 }
+
+/// Import trees (imports.rs, reorder.rs). `text` must consist of `use` items only.
+pub mod imports {
+    use super::*;
+    use crate::config::{GroupImportsTactic, ImportGranularity};
+    use crate::imports::verif::{self as iv, Enc};
+    use crate::imports::{UseTree, normalize_use_trees_with_granularity};
+
+    pub struct Pipeline {
+        /// the trees after `from_ast_with_normalization` (one per item)
+        pub input: Vec<Enc>,
+        /// after `normalize_use_trees_with_granularity`
+        pub regrouped: Vec<Enc>,
+        /// after grouping and (if `reorder_imports`) sorting: the groups that are written out
+        pub groups: Vec<Vec<Enc>>,
+    }
+
+    pub fn pipeline(text: &str, config: &Config) -> Option<Pipeline> {
+        with_crate(text, config, |krate, context| {
+            let items: Vec<&rustc_ast::ast::Item> = krate.items.iter().map(|i| &**i).collect();
+            if items.is_empty() {
+                return Pipeline { input: vec![], regrouped: vec![], groups: vec![] };
+            }
+            let trees: Vec<UseTree> = iv::trees_of_items(context, &items, krate.spans.inner_span);
+            let input = trees.iter().map(|t| iv::encode(context, t)).collect();
+            let regrouped_trees = normalize_use_trees_with_granularity(trees, config.imports_granularity());
+            let regrouped = regrouped_trees.iter().map(|t| iv::encode(context, t)).collect();
+            let mut groups = match config.group_imports() {
+                GroupImportsTactic::Preserve | GroupImportsTactic::One => vec![regrouped_trees],
+                GroupImportsTactic::StdExternalCrate => crate::reorder::verif_imports::group(regrouped_trees),
+            };
+            if config.reorder_imports() {
+                groups.iter_mut().for_each(|g| g.sort());
+            }
+            let groups = groups
+                .iter()
+                .filter(|g| !g.is_empty())
+                .map(|g| g.iter().map(|t| iv::encode(context, t)).collect())
+                .collect();
+            Pipeline { input, regrouped, groups }
+        })
+    }
+
+    /// per input tree: (normalize, flatten under the configured granularity, nest_trailing_self)
+    pub fn per_tree(text: &str, config: &Config) -> Option<Vec<(String, Vec<String>, String)>> {
+        with_crate(text, config, |krate, context| {
+            let items: Vec<&rustc_ast::ast::Item> = krate.items.iter().map(|i| &**i).collect();
+            let g: ImportGranularity = config.imports_granularity();
+            iv::trees_of_items(context, &items, krate.spans.inner_span)
+                .iter()
+                .map(|t| iv::per_tree(t, g))
+                .collect()
+        })
+    }
+}
